@@ -213,6 +213,27 @@ func goid() string {
 	return ""
 }
 
+// parentGoid returns the id of the goroutine that started the calling one ("created by f in
+// goroutine N" at the end of its stack trace), or "".
+func parentGoid() string {
+	buf := make([]byte, 1<<16)
+	n := runtime.Stack(buf, false)
+	st := string(buf[:n])
+	i := strings.LastIndex(st, "created by ")
+	if i < 0 {
+		return ""
+	}
+	line := st[i:]
+	if j := strings.IndexByte(line, '\n'); j >= 0 {
+		line = line[:j]
+	}
+	k := strings.LastIndex(line, " in goroutine ")
+	if k < 0 {
+		return ""
+	}
+	return strings.TrimSpace(line[k+len(" in goroutine "):])
+}
+
 // Yield is a scheduling point. Natively, a named thread waits here for its turn in the
 // recorded schedule (unnamed goroutines and exhausted schedules pass freely).
 func Yield() { gateAt("", nil) }
@@ -258,10 +279,15 @@ func gateAt(point string, f func()) {
 	}
 	name := gnames[id]
 	if name == "" {
-		if point == "" {
-			return
-		}
+		// a goroutine started by the code under test: its spawner's label (if known) plus "+"
 		name = "?"
+		if p := gnames[parentGoid()]; p != "" && p != "?" {
+			name = p + "+"
+		}
+		gnames[id] = name
+	}
+	if name == "?" && point == "" {
+		return
 	}
 	if point != "" {
 		name += ":" + point
